@@ -314,6 +314,16 @@ def query_avoid_reasons(q, partitions=2):
         _walk_exprs(e, fn)
         return bool(hit)
 
+    def const_operand_bool_subq(e):
+        """an uncorrelated IN/ANY/ALL subquery whose left operand references no column: the semi join has no outer column"""
+        hit = []
+
+        def fn(x):
+            if x.k == "subq" and x.a[0] in ("in", "any", "all") and x.a[2] is not None and is_constant(x.a[2]):
+                hit.append(1)
+        _walk_exprs(e, fn)
+        return bool(hit)
+
     def visit_sel(s):
         if s.group is not None:
             gkeys = [struct_key(g) for g in s.group[1]]
@@ -326,6 +336,8 @@ def query_avoid_reasons(q, partitions=2):
                 _walk_exprs(e, fn)
         if s.where is not None and n_from_items(s.frm) >= 3 and has_bool_subq(s.where):
             reasons.add("optimizer-semi-join-reorder-loses-rows")
+        if s.where is not None and const_operand_bool_subq(s.where):
+            reasons.add("optimizer-semi-join-constant-operand-loses-rows")
         for e in [s.where, s.having] + [x for x, _ in s.items]:
             if e is None:
                 continue
